@@ -105,7 +105,13 @@ class Tr:
         self.cls = cls
         self.repo = repo
         self.facts = facts      # which helper members have their expected one-line bodies
+        self.env_ids = set()    # ids of locals initialised with nitro::env::get(env()) — whatever they are called
+        self.raise_lambdas = set()   # ids of local lambdas whose whole body is one raise<parsing_error>(…)
         self.src = open(os.path.join(repo, "src/options/%s.cpp" % cls), "rb").read()
+
+    def is_env_local(self, e):
+        n, i = var_ref(e)
+        return (i is not None and i in self.env_ids) or n == "env_value"
 
     # ---------------- conditions
     def cond(self, e):
@@ -121,7 +127,7 @@ class Tr:
             return "BIsOptional"
         if m == "dirty_":
             return "BDirty"
-        if m == "reversable_":
+        if m is not None and re.match(r"^revers[ai]ble_$", m):
             return "BReversable"
         c = this_call(e)
         if c == "has_env" and self.facts.get("has_env"):
@@ -130,6 +136,8 @@ class Tr:
             return "BDirty"
         if c == "given" and self.facts.get("given"):
             return "BGiven"
+        if c == "has_default" and self.facts.get("has_default_" + self.cls):
+            return {"option": "BHasDefaultO", "multi_option": "BHasDefaultM"}.get(self.cls, "BUnknown")
         mm, meth, args = call_on_member(e)
         if mm == "value_" and meth == "operator bool" and self.cls == "option":
             return "BValueSet"
@@ -138,8 +146,10 @@ class Tr:
         if mm == "value_" and meth == "empty" and self.cls == "multi_option" and not args:
             return "BVecEmpty"
         v, meth, args = call_on_var(e)
-        if v == "env_value" and meth == "empty" and not args:
-            return "BEnvEmpty"
+        if meth == "empty" and not args and strip(e).get("kind") == "CXXMemberCallExpr":
+            callee = strip(inner(strip(e))[0])
+            if callee.get("kind") == "MemberExpr" and len(inner(callee)) == 1 and self.is_env_local(inner(callee)[0]):
+                return "BEnvEmpty"
         if v == "arg" and not args:
             if meth == "has_value":
                 return "BArgHasValue"
@@ -180,9 +190,10 @@ class Tr:
         v, meth, args = call_on_var(r)
         if v == "arg" and meth == "value" and not args:
             return "arg"
-        vn, _ = var_ref(r)
-        if vn == "env_value":
+        if self.is_env_local(r):
             return "env"
+        if this_call(r) == "get_default" and self.facts.get("get_default_" + self.cls):
+            return "default"
         if r.get("kind") == "CXXOperatorCallExpr":
             parts = inner(r)
             if (strip(parts[0]).get("referencedDecl") or {}).get("name") == "operator*" and len(parts) == 2 and this_member(parts[1]) == "default_":
@@ -218,7 +229,7 @@ class Tr:
                     return "SGivenDefault"
                 if r0.get("kind") == "CallExpr":
                     ps = inner(r0)
-                    if (strip(ps[0]).get("referencedDecl") or {}).get("name") == "parse_env_value" and len(ps) == 2 and var_ref(ps[1])[0] == "env_value":
+                    if (strip(ps[0]).get("referencedDecl") or {}).get("name") == "parse_env_value" and len(ps) == 2 and self.is_env_local(ps[1]):
                         return "SGivenEnvWord"
             return "SUnknown"
         if k == "CompoundAssignOperator" and e.get("opcode") == "+=" and self.cls == "toggle":
@@ -237,6 +248,9 @@ class Tr:
             return "SGivenIncr"
         if k == "CXXOperatorCallExpr":
             parts = inner(e)
+            if (strip(parts[0]).get("referencedDecl") or {}).get("name") == "operator()" and len(parts) == 2:
+                _, lid = var_ref(parts[1])
+                return "SRaiseUser" if lid in self.raise_lambdas else "SUnknown"
             if (strip(parts[0]).get("referencedDecl") or {}).get("name") == "operator=" and len(parts) == 3 and this_member(parts[1]) == "value_":
                 rhs = self.value_rhs(parts[2])
                 if self.cls == "option":
@@ -249,7 +263,7 @@ class Tr:
             if mm == "value_" and self.cls == "multi_option":
                 if meth == "clear" and not args:
                     return "SVecClear"
-                if meth == "push_back" and len(args) == 1:
+                if meth in ("push_back", "emplace_back") and len(args) == 1:
                     v, m2, a2 = call_on_var(args[0])
                     if v == "arg" and m2 == "value" and not a2:
                         return "SVecPushArg"
@@ -258,16 +272,36 @@ class Tr:
             return "SUnknown"
         if k == "DeclStmt":
             vs = inner(e)
-            if len(vs) == 1 and vs[0].get("kind") == "VarDecl" and vs[0].get("name") == "env_value" and inner(vs[0]):
+            if len(vs) == 1 and vs[0].get("kind") == "VarDecl" and inner(vs[0]) and strip(inner(vs[0])[0]).get("kind") == "LambdaExpr":
+                # a local lambda whose whole body is one raise<parsing_error>(…): calling it is raising
+                lam = strip(inner(vs[0])[0])
+                bodies = [c for c in inner(lam) if c.get("kind") == "CompoundStmt"]
+                if bodies:
+                    sts = inner(bodies[-1])
+                    if len(sts) == 1 and strip(sts[0]).get("kind") == "CallExpr" and self.is_raise_user(strip(sts[0])):
+                        self.raise_lambdas.add(vs[0].get("id"))
+                        return "SSkip"
+                return "SUnknown"
+            if len(vs) == 1 and vs[0].get("kind") == "VarDecl" and inner(vs[0]):
                 init = strip(inner(vs[0])[0])
+                # a copy-initialised std::string: look through the constructor
+                while init.get("kind") in ("CXXConstructExpr",) and len(inner(init)) == 1:
+                    init = strip(inner(init)[0])
                 if init.get("kind") == "CallExpr":
                     ps = inner(init)
                     rd = strip(ps[0]).get("referencedDecl") or {}
                     # nitro::env::get(env())  with the defaulted second argument
                     if rd.get("name") == "get" and len(ps) >= 2 and this_call(ps[1]) == "env" and self.facts.get("env") \
                             and all(p.get("kind") == "CXXDefaultArgExpr" for p in ps[2:]):
+                        self.env_ids.add(vs[0].get("id"))
                         return "SLetEnv"
             return "SUnknown"
+        if k == "CXXOperatorCallExpr":
+            parts = inner(e)
+            if (strip(parts[0]).get("referencedDecl") or {}).get("name") == "operator()" and len(parts) == 2:
+                _, lid = var_ref(parts[1])
+                if lid in self.raise_lambdas:
+                    return "SRaiseUser"
         if k == "CallExpr":
             return "SRaiseUser" if self.is_raise_user(e) else "SUnknown"
         return "SUnknown"
@@ -320,6 +354,61 @@ class Tr:
             return None
         return "(SForLines x%02x %s)" % (sep, self.block(body))
 
+    def for_getline_idiom(self, sts, i):
+        """std::istringstream Y(env_value);  for (std::string X; std::getline(Y, X, 'c');) body   ->  SForLines c body"""
+        if i + 1 >= len(sts):
+            return None
+        a, b = strip(sts[i]), strip(sts[i + 1])
+        if a.get("kind") != "DeclStmt" or len(inner(a)) != 1 or b.get("kind") != "ForStmt":
+            return None
+        v = inner(a)[0]
+        ty = (v.get("type") or {}).get("qualType", "")
+        if v.get("kind") != "VarDecl" or not re.search(r"istringstream|stringstream", ty) or not inner(v):
+            return None
+        init = strip(inner(v)[0])
+        while init.get("kind") == "CXXConstructExpr" and len(inner(init)) >= 1:
+            args = [x for x in inner(init) if x.get("kind") != "CXXDefaultArgExpr"]
+            if len(args) != 1:
+                return None
+            init = strip(args[0])
+        if not self.is_env_local(init):
+            return None
+        yid = v.get("id")
+        parts = b.get("inner", [])
+        parts = [p for p in parts]
+        # ForStmt children: init, (condvar), cond, inc, body — empty slots are {}
+        kids = [p for p in parts if isinstance(p, dict)]
+        if len(kids) < 5:
+            return None
+        finit, cond, inc, body = kids[0], kids[2], kids[3], kids[4]
+        if inc.get("kind"):
+            return None
+        fi = strip(finit) if finit.get("kind") else {}
+        if fi.get("kind") != "DeclStmt" or len(inner(fi)) != 1:
+            return None
+        xv = inner(fi)[0]
+        if xv.get("name") != "element" or not re.search(r"(^|::)string$|basic_string<char>", (xv.get("type") or {}).get("qualType", "")):
+            return None
+        if any(strip(x).get("kind") != "CXXConstructExpr" or inner(strip(x)) for x in inner(xv)):
+            return None
+        cnd = strip(cond)
+        if cnd.get("kind") == "CXXMemberCallExpr":
+            callee = strip(inner(cnd)[0])
+            if callee.get("name") != "operator bool":
+                return None
+            cnd = strip(inner(callee)[0])
+        if cnd.get("kind") != "CallExpr":
+            return None
+        ps = inner(cnd)
+        if (strip(ps[0]).get("referencedDecl") or {}).get("name") != "getline" or len(ps) != 4:
+            return None
+        if var_ref(ps[1])[1] != yid or var_ref(ps[2])[1] != xv.get("id") or strip(ps[3]).get("kind") != "CharacterLiteral":
+            return None
+        sep = strip(ps[3]).get("value")
+        if not isinstance(sep, int) or not (0 <= sep <= 255):
+            return None
+        return "(SForLines x%02x %s)" % (sep, self.block(body))
+
     def block(self, s):
         s0 = s
         if s0.get("kind") != "CompoundStmt":
@@ -332,8 +421,14 @@ class Tr:
                 out.append(g)
                 i += 4
                 continue
+            g = self.for_getline_idiom(sts, i)
+            if g:
+                out.append(g)
+                i += 2
+                continue
             out.append(self.stmt(sts[i]))
             i += 1
+        out = [o for o in out if o != "SSkip"]
         return "[" + "; ".join(out) + "]"
 
 
@@ -343,12 +438,22 @@ def helper_facts(repo):
     tog = open(os.path.join(repo, "src/options/toggle.cpp"), "rb").read().decode("latin-1")
     def has(txt, pat):
         return re.search(pat, txt, re.S) is not None
-    return {
+    def src_of(cls):
+        try:
+            return open(os.path.join(repo, "src/options/%s.cpp" % cls), "rb").read().decode("latin-1")
+        except OSError:
+            return ""
+    extra = {}
+    for cls in ("option", "multi_option"):
+        t = src_of(cls)
+        extra["has_default_" + cls] = has(t, r"bool\s+%s::has_default\s*\(\s*\)\s*const\s*\{\s*return\s+(static_cast\s*<\s*bool\s*>\s*\(\s*default_\s*\)|default_\.has_value\s*\(\s*\)|!!\s*default_)\s*;\s*\}" % cls)
+        extra["get_default_" + cls] = has(t, r"%s::get_default\s*\(\s*\)\s*const\s*\{\s*return\s+\*\s*default_\s*;\s*\}" % cls)
+    return dict(extra, **{
         "has_non_default": has(base, r"bool\s+has_non_default\s*\(\s*\)\s*const\s*\{\s*return\s+dirty_\s*;\s*\}"),
         "has_env": has(base, r"bool\s+has_env\s*\(\s*\)\s*const\s*\{\s*return\s*!\s*env_\.empty\s*\(\s*\)\s*;\s*\}"),
         "env": has(base, r"const\s+std::string\s*&\s*env\s*\(\s*\)\s*const\s*\{\s*return\s+env_\s*;\s*\}"),
         "given": has(tog, r"int\s+toggle::given\s*\(\s*\)\s*const\s*\{\s*return\s+given_\s*;\s*\}"),
-    }
+    })
 
 
 def generate(repo):
